@@ -413,7 +413,13 @@ def rule_witness(ctx):
                 res.ok()
                 res.sample({"type": ty})
         if rc != 0 and not failed:
-            res.violate("witness-crate-does-not-build", "harness crate failed to type-check for another reason: %s" % "; ".join(generic_err[:3]))
+            # a compiler diagnostic in a workspace file is positive evidence; anything else (cargo could not lock, ran out
+            # of disk or memory, was killed) says nothing about the property
+            diag = [l for l in err.splitlines() if re.match(r"^\S+\.rs:\d+:\d+: error(\[E\d+\])?:", l)]
+            if diag:
+                res.violate("witness-crate-does-not-build", "harness crate failed to type-check: %s" % "; ".join(diag[:3]))
+            else:
+                res.undecided("witness-crate-not-checked", "the harness crate could not be type-checked and the compiler reported no diagnostic (infrastructure failure?): %s" % "; ".join((generic_err or err.splitlines()[-3:])[:3]))
     finally:
         shutil.rmtree(d, ignore_errors=True)
     # de-duplicate violations per key (f32 and f64 instantiations fail alike)
